@@ -323,7 +323,7 @@ def many_refs_case(chk, sz, scratch, nrefs, prefix="C07"):
 
 
 def run(chk, b, tier):
-    n = 150 if tier == "quick" else 3000
+    n = 150 if tier == "quick" else 8000
     sz = b.sizer()
     scratch = b.scratchdir()
     shimdir = b.shimdir()
